@@ -650,8 +650,8 @@ theorem substElem_keeps {N : Net L K} {cvals lvals : ValDict K} (h : RLC N cvals
 
 theorem deltaEntry_eq_neg_Q (N : Net L K) (b : Branch L K) (n : L) (hn : n ≠ N.zero) (hsl : b.n1 ≠ b.n2) :
     deltaEntry b n = - N.Qentry b n := by
-  rw [Q_eq_neg_dir N b n hn hsl, neg_neg]
-  unfold deltaEntry Branch.dir
+  rw [Q_eq_neg_dir N b n hn hsl, neg_neg, dir_of_ne b n hsl]
+  unfold deltaEntry
   by_cases h2 : n = b.n2
   · subst h2
     simp [hsl]
